@@ -358,6 +358,9 @@ func (p *PIDZero) Shutdown() {
 		}
 		p.launchMu.Unlock()
 
+		// Final states recorded below; stored again once the state monitors have exited.
+		finalStates := make(map[Runnable]string)
+
 		// Stop each runnable in reverse order
 		for i := stopCount - 1; i >= 0; i-- {
 			r := p.runnables[i]
@@ -377,6 +380,7 @@ func (p *PIDZero) Shutdown() {
 			if stateable, ok := r.(Stateable); ok {
 				finalState := stateable.GetState()
 				p.stateMap.Store(r, finalState)
+				finalStates[r] = finalState
 				p.logger.Debug("Post-shutdown state", "runnable", r, "state", finalState)
 			}
 
@@ -387,6 +391,7 @@ func (p *PIDZero) Shutdown() {
 		p.cancel() // cancel the context for any remaining goroutines
 
 		// Set up a timeout for wait if configured
+		waited := true
 		if p.shutdownTimeout > 0 {
 			// Create a channel to signal when wg.Wait() completes
 			done := make(chan struct{})
@@ -403,10 +408,20 @@ func (p *PIDZero) Shutdown() {
 				p.logger.Warn("Shutdown timeout exceeded waiting for goroutines",
 					"timeout", p.shutdownTimeout,
 					"elapsed", time.Since(shutdownStart))
+				waited = false
 			}
 		} else {
 			// No timeout configured, wait indefinitely
 			p.wg.Wait()
+		}
+
+		// A state monitor that was still catching up on older values when the context was
+		// cancelled may have written one of them over a final state. The monitors have
+		// exited now, so the recorded final states stand.
+		if waited {
+			for r, finalState := range finalStates {
+				p.stateMap.Store(r, finalState)
+			}
 		}
 
 		totalShutdownTime := time.Since(shutdownStart)
